@@ -1,6 +1,7 @@
 import Tmv.Lemmas.MerkleComplete
 import Tmv.Lemmas.MerkleInclusion
 import Tmv.Lemmas.MerkleTraced
+import Tmv.Lemmas.MerkleDepth
 import Tmv.Model.PartSet
 import Tmv.Model.TxProof
 /-! # C10 — Block parts and Merkle proofs bind content to position
@@ -518,6 +519,55 @@ theorem complete_reassembles_traced (L : Nat) (hL : 0 < L) (hlen : ∀ x, (H x).
   simp only [hmap]
   rw [← hpieces]
   exact split_join data psize hps
+
+
+/-! ## The wire glue: honest parts pass `Part.ValidateBasic` -/
+
+theorem splitF_piece_len (psize : Nat) : ∀ (fuel : Nat) (d : Bytes) (x : Bytes),
+    x ∈ splitF fuel d psize → x.length ≤ psize := by
+  intro fuel
+  induction fuel with
+  | zero => intro d x hx; simp [splitF] at hx
+  | succ f ih =>
+    intro d x hx
+    unfold splitF at hx
+    split at hx
+    · simp at hx
+    · simp only [List.mem_cons] at hx
+      rcases hx with rfl | hx
+      · simp [List.length_take]; omega
+      · exact ih _ _ hx
+
+/-- Every part a correct proposer cuts (part size within `BlockPartSizeBytes`, fewer than 2^100
+parts) passes the validation the reactor applies to parts from the wire, for any 32-byte hash —
+so `ValidateBasic` never stands between an honest part and `AddPart`. (`100 ≤ maxAunts` is
+discharged from the regenerated constant: changing `merkle.MaxAunts` below 100 breaks this proof.) -/
+theorem honest_parts_validate (hlen : ∀ x, (H x).length = hashSize)
+    (data : Bytes) (psize : Nat) (hpsz : psize ≤ blockPartSizeBytes)
+    (hcount : (split data psize).length ≤ 2 ^ 100)
+    (i : Nat) (hi : i < (split data psize).length) :
+    partValidateBasic { index := i, bytes := (split data psize)[i],
+                        proof := proofOf H (split data psize) i } = .ok () := by
+  have hma : 100 ≤ maxAunts := by decide
+  generalize hp : split data psize = pieces at *
+  have hne : pieces ≠ [] := by intro h; subst h; simp at hi
+  have hpl : pieces[i].length ≤ psize := by
+    have hm : pieces[i] ∈ pieces := List.getElem_mem hi
+    have hm' : pieces[i] ∈ split data psize := by rw [hp]; exact hm
+    exact splitF_piece_len psize _ _ _ hm'
+  have ha := auntsF_le_maxAunts H pieces i hne hcount
+  have hal := aunts_len_hash H hashSize hlen pieces.length pieces i
+  unfold partValidateBasic proofValidateBasic proofOf
+  have h1 : ¬ pieces[i].length > blockPartSizeBytes := by omega
+  have h2 : ¬ ((pieces.length : Int) < 0) := by omega
+  have h3 : ¬ ((i : Int) < 0) := by omega
+  have h4 : (leafHash H (pieces[i]?.getD [])).length = hashSize := by simp [leafHash, hlen]
+  have h5 : ¬ (auntsF H pieces.length pieces i).length > maxAunts := by omega
+  have h6 : (auntsF H pieces.length pieces i).all (fun a => a.length == hashSize) = true := by
+    rw [List.all_eq_true]
+    intro a haa
+    simpa using hal a haa
+  simp [h1, h2, h3, h4, h5, h6]
 
 /-! Non-vacuity: the hypotheses are satisfiable and `added` is reachable. -/
 example : let Hx : Bytes → Bytes := fun x => [UInt8.ofNat x.length];
